@@ -36,7 +36,7 @@ FAULT_OPS = ("alloc", "clock_tick", "clock_jump", "clock_freeze")
 # (probes "epoch_address_reused" / "ephemeral_id" only fire if the code under test calls id() on temporaries,
 #  which the repaired tree no longer does; they are kept for mutants and not required to be non-zero)
 PROBES = ["refinement_rounds_ge_2", "timeout_fired", "clock_went_backwards",
-          "symmetric_family", "regular_graph_zoo", "analyser_attribute_rekeyed", "enumeration_suspended_while_other_call_runs", "canon_compared_with_another_interpreter", "more_than_1000_automorphisms", "same_hypergraph_object_reanalysed", "network_edited_between_analyses", "call_relying_on_signature_defaults", "analyser_object_reused", "depth_limited_call", "wl_checked", "twin_compared", "neighbour_compared", "flagged_partial_answer", "slow_clock_default_timeout"]
+          "symmetric_family", "regular_graph_zoo", "edit_keeps_species_and_reaction_counts", "analyser_attribute_rekeyed", "enumeration_suspended_while_other_call_runs", "canon_compared_with_another_interpreter", "more_than_1000_automorphisms", "same_hypergraph_object_reanalysed", "network_edited_between_analyses", "call_relying_on_signature_defaults", "analyser_object_reused", "depth_limited_call", "wl_checked", "twin_compared", "neighbour_compared", "flagged_partial_answer", "slow_clock_default_timeout"]
 REAL = ["synkit.CRN.Topo.wl_canon.WLCanonicalizer / wl_canonical (sound checks only: isomorphic to view, colour classes coarsen true orbits, estimate >= true count, twin histograms equal)",
         "synkit.CRN.Topo.canon.CRNCanonicalizer (_init_part/_sig/_refine/_label/_search/_canon, summary/graph/orbits)",
         "synkit.CRN.Topo.automorphism.CRNAutomorphism.summary / has_nontrivial_automorphism / detect_automorphisms",
@@ -285,7 +285,11 @@ def generate(seed: int, tier: str = "quick") -> Dict[str, Any]:
             flags = [rng.random() < 0.6, rng.random() < 0.6, rng.random() < 0.25]
         if rng.random() < 0.06:
             sp = rng.sample(ALL_SPECIES[:4], 2)
-            ops.append({"op": "edit", "s": s(), "rx": {"r": {sp[0]: rng.choice([1, 2])}, "p": {sp[1]: rng.choice([1, 1, 3])}}})
+            if rng.random() < 0.4:
+                # an edit that keeps the number of species and reactions: one reaction is replaced by its reverse
+                ops.append({"op": "edit", "s": s(), "reverse": rng.randrange(8)})
+            else:
+                ops.append({"op": "edit", "s": s(), "rx": {"r": {sp[0]: rng.choice([1, 2])}, "p": {sp[1]: rng.choice([1, 1, 3])}}})
         which = rng.choice(["net", "net", "twin", "twin", "nbr"])
         tmo = rng.choice([None, None, None, 1e9]) if not clocky else rng.choice([None, None, 0, 0.5, 5, 1e9])
         if rng.random() < 0.12:
@@ -337,6 +341,18 @@ def generate(seed: int, tier: str = "quick") -> Dict[str, Any]:
             if clocky and rng.random() < 0.5:
                 out_ops.append({"op": "clock_jump", "s": s(), "after": 0, "dt": rng.choice([3.0, 60.0, 1e6])})
             out_ops.append(f)
+    if rng.random() < 0.06:
+        # analyse - edit in place (same number of species and reactions) - analyse again, same object, same settings
+        cfg["persistent_objects"] = True
+        w = rng.choice(["net", "twin"])
+        fl = [rng.random() < 0.5, rng.random() < 0.5, False]
+        mk_c = lambda api: {"op": "canon", "s": s(), "which": w, "timeout": None, "flags": list(fl), "api": api,  # noqa: E731
+                            "max_depth": None, "reuse": rng.random() < 0.5, "bare": False}
+        out_ops.append(mk_c("summary"))
+        out_ops.append({"op": "edit", "s": s(), "reverse": rng.randrange(8)})
+        out_ops.append(mk_c(rng.choice(["summary", "graph", "canonical"])))
+        out_ops.append({"op": "aut", "s": s(), "which": w, "flags": list(fl), "timeout": None, "max_count": 5000,
+                        "api": rng.choice(["summary", "iter", "detect"]), "reuse": rng.random() < 0.5, "bare": False})
     return {"cfg": cfg, "ops": out_ops}
 
 
@@ -567,6 +583,33 @@ def _run(case: Dict[str, Any], sim: Sim, world: World, clock: SimClock) -> None:
         if k == "clock_freeze":
             clock.schedule(op["after"], "freeze", op["k"])
             sim.event("clock_freeze", [op["after"], op["k"]])
+            continue
+        if k == "edit" and "reverse" in op:
+            tm = cfg.get("twin_map") or {}
+            base = nets["net"][op["reverse"] % len(nets["net"])]
+            done = 0
+            for w in ("net", "twin", "nbr"):
+                mp = tm if w == "twin" else {}
+                r = {mp.get(a, a): c for a, c in base["r"].items()}
+                p = {mp.get(a, a): c for a, c in base["p"].items()}
+                if r == p:
+                    continue
+                j = next((i for i, rx_ in enumerate(nets[w]) if rx_["r"] == r and rx_["p"] == p
+                          and (rx_.get("rule") or "r") == (base.get("rule") or "r")), None)
+                if j is None:
+                    continue
+                old = nets[w].pop(j)
+                nets[w].append({"id": None, "rule": old.get("rule") or "r", "r": dict(p), "p": dict(r)})
+                if w in objs:
+                    eid = list(objs[w].edges)[j]
+                    objs[w].remove_rxn(eid)
+                    objs[w].add_rxn(dict(p), dict(r), rule=old.get("rule") or "r")
+                done += 1
+            if done:
+                version[0] += 1
+                sim.probe("network_edited_between_analyses")
+                sim.probe("edit_keeps_species_and_reaction_counts")
+            sim.event("edit_reverse", [op["reverse"], done])
             continue
         if k == "edit":
             rx = op["rx"]
